@@ -3,7 +3,7 @@
                           the values worth trying (members of the accepted sets, literals, lengths)
    driver <cases file>    one verdict per case line:
      V <Layout> <varied field> <fields…>   ACC | REJ | UNK | OUTSIDE   (record rules)
-     B <EntryType> <fields…>               ACC | REJ                   (batch level entry rules) *)
+     B <EntryType> <k> <entry 1> | <entry 2> | …   ACC | REJ           (batch level entry rules, entries in order) *)
 open Model
 open Conv
 open Convz
@@ -125,8 +125,16 @@ let () =
           (match find_layout name with
            | None -> print_endline "NOLAYOUT"
            | Some l -> print_endline (verdict_record l varied (List.map parse_field fields)))
-        | "B" :: name :: fields ->
+        | "B" :: name :: _k :: toks ->
+          (* all entries of the batch in order, separated by "|" *)
           let rs = match List.find_opt (fun (n, _) -> ocaml_string n = name) batch_entry_rules with
             | Some (_, rs) -> rs | None -> [] in
-          print_endline (if rec_validb rs (List.map parse_field fields) then "ACC" else "REJ")
+          let x = match List.find_opt (fun (n, _) -> ocaml_string n = name) batch_loop_exits with
+            | Some (_, x) -> x | None -> CTrue in
+          let rec split cur acc = function
+            | [] -> List.rev (List.rev cur :: acc)
+            | "|" :: rest -> split [] (List.rev cur :: acc) rest
+            | t :: rest -> split (t :: cur) acc rest in
+          let es = List.map (List.map parse_field) (split [] [] toks) in
+          print_endline (if entries_validb rs x es then "ACC" else "REJ")
         | _ -> print_endline "?")
